@@ -87,6 +87,13 @@ def run(ctx):
         ncat = None
         if name in families.ELEM or name in ("FusionART", "TopoART", "CVIART", "iCVIFuzzyART"):
             ncat = len(est.W)
+            if ncat == 0:
+                # TopoART after a total wipe-out: every row is an orphan, labelled -1 like prune does
+                if not np.all(p == -1):
+                    ctx.issue("violation", f"{name}.predict:empty-model-label", f"predictions {p.ravel().tolist()} on an emptied model", rep)
+                cov.hit("predict-on-emptied-model")
+                cov.case((name, fam.spec, desc["rows"], idx), False)
+                continue
             if p.min() < 0 or p.max() >= ncat:
                 ctx.issue("violation", f"{name}.predict:out-of-range", f"predictions {p.ravel().tolist()} with {ncat} categories", rep)
             # recompute the arg-max from the public activation function
